@@ -13,6 +13,9 @@ package icc
 //@   ensures [C16] ok: old(pr.reader.avail) >= 12 ==> err == nil && pr.reader.pos == old(pr.reader.pos) + 12 && result == Date(int(be16(pr.reader, old(pr.reader.pos))), int(be16(pr.reader, old(pr.reader.pos)+2)), int(be16(pr.reader, old(pr.reader.pos)+4)), int(be16(pr.reader, old(pr.reader.pos)+6)), int(be16(pr.reader, old(pr.reader.pos)+8)), int(be16(pr.reader, old(pr.reader.pos)+10)))
 //@   ensures [C16,C09] short: old(pr.reader.avail) < 12 ==> err != nil
 
+//@ func ProfileReader.ReadProfile
+//@   recovers
+
 //@ func ProfileReader.readHeader
 //@   ensures [C16,C08] accepts: old(pr.reader.avail) >= 128 && be32(pr.reader, old(pr.reader.pos)+36) == 0x61637370 ==> result == nil
 //@   ensures [C16] rejects-bad-signature: old(pr.reader.avail) >= 40 && be32(pr.reader, old(pr.reader.pos)+36) != 0x61637370 ==> result != nil
